@@ -18,58 +18,58 @@ import (
 )
 
 var (
-	vAcctOnce sync.Once
-	vAccts    []*common.Address
+	c05VAcctOnce sync.Once
+	c05VAccts    []*common.Address
 )
 
-func vAccounts() []*common.Address {
-	vAcctOnce.Do(func() {
+func c05VAccounts() []*common.Address {
+	c05VAcctOnce.Do(func() {
 		for i := 0; i < 24; i++ {
 			seed := bytes.Repeat([]byte{byte(17 + i)}, 64)
 			seed[0] = byte(i)
 			a := common.NewAddressFromSeed(seed)
-			vAccts = append(vAccts, &a)
+			c05VAccts = append(c05VAccts, &a)
 		}
 	})
-	return vAccts
+	return c05VAccts
 }
 
-type gUtxo struct {
+type c05GUtxo struct {
 	u      *common.UTXOWithLock
 	owners []*common.Address // accounts behind Keys, same order
 }
 
-type gWorld struct {
+type c05GWorld struct {
 	r          *Rand
 	lines      []string
-	utxos      []*gUtxo
+	utxos      []*c05GUtxo
 	txs        map[crypto.Hash]*common.VersionedTransaction
 	custodian  *common.Address
 	custNodes  [][2]*common.Address // custodian, payee
-	pledging   *gNode
-	accepted   []*gNode
+	pledging   *c05GNode
+	accepted   []*c05GNode
 	submits    []crypto.Hash
 	consistent bool
 	assets     []crypto.Hash
 	otherAsset crypto.Hash
 }
 
-type gNode struct {
+type c05GNode struct {
 	signer, payee *common.Address
 	tx            *common.VersionedTransaction
-	utxo          *gUtxo
+	utxo          *c05GUtxo
 }
 
-func (w *gWorld) seed() []byte { return w.r.Bytes(64) }
-func (w *gWorld) randHash() crypto.Hash {
+func (w *c05GWorld) seed() []byte { return w.r.Bytes(64) }
+func (w *c05GWorld) randHash() crypto.Hash {
 	return crypto.Blake3Hash(w.r.Bytes(16))
 }
-func (w *gWorld) acct() *common.Address { return Pick(w.r, vAccounts()) }
+func (w *c05GWorld) acct() *common.Address { return Pick(w.r, c05VAccounts()) }
 
-func bigAmount(n int64) common.Integer { return integerFromBig(big.NewInt(n)) }
+func c05BigAmount(n int64) common.Integer { return integerFromBig(big.NewInt(n)) }
 
 // store a finalized transaction and materialise its outputs with the repo's UnspentOutputs
-func (w *gWorld) storeTx(tx *common.Transaction, owners [][]*common.Address, finalized bool) (*common.VersionedTransaction, []*gUtxo) {
+func (w *c05GWorld) storeTx(tx *common.Transaction, owners [][]*common.Address, finalized bool) (*common.VersionedTransaction, []*c05GUtxo) {
 	ver := tx.AsVersioned()
 	w.txs[ver.PayloadHash()] = ver
 	fin := "1"
@@ -77,14 +77,14 @@ func (w *gWorld) storeTx(tx *common.Transaction, owners [][]*common.Address, fin
 		fin = "0"
 	}
 	w.lines = append(w.lines, "stx - "+fin+" "+Hex(ver.Marshal()))
-	var res []*gUtxo
+	var res []*c05GUtxo
 	for _, u := range ver.UnspentOutputs() {
 		// decoupled copy, as a store would return
 		uu, err := common.UnmarshalUTXO(u.Marshal())
 		if err != nil {
 			panic(err)
 		}
-		g := &gUtxo{u: uu}
+		g := &c05GUtxo{u: uu}
 		if int(u.Index) < len(owners) {
 			g.owners = owners[u.Index]
 		}
@@ -93,17 +93,17 @@ func (w *gWorld) storeTx(tx *common.Transaction, owners [][]*common.Address, fin
 	return ver, res
 }
 
-func (w *gWorld) addUtxo(g *gUtxo) {
+func (w *c05GWorld) addUtxo(g *c05GUtxo) {
 	w.utxos = append(w.utxos, g)
 }
 
-func (w *gWorld) emitUtxos() {
+func (w *c05GWorld) emitUtxos() {
 	for _, g := range w.utxos {
 		w.lines = append(w.lines, "utxo "+Hex(g.u.Marshal()))
 	}
 }
 
-func (w *gWorld) scriptFor(n int) common.Script {
+func (w *c05GWorld) scriptFor(n int) common.Script {
 	th := w.r.Range(1, n)
 	if w.r.Chance(1, 12) {
 		th = 0
@@ -111,21 +111,21 @@ func (w *gWorld) scriptFor(n int) common.Script {
 	return common.NewThresholdScript(uint8(th))
 }
 
-func (w *gWorld) genAmount() common.Integer {
+func (w *c05GWorld) genAmount() common.Integer {
 	switch w.r.Intn(6) {
 	case 0:
-		return bigAmount(int64(w.r.Range(1, 3)))
+		return c05BigAmount(int64(w.r.Range(1, 3)))
 	case 1:
-		return bigAmount(int64(w.r.Range(9999, 10001)))
+		return c05BigAmount(int64(w.r.Range(9999, 10001)))
 	case 2:
 		return common.NewInteger(uint64(w.r.Range(1, 20000)))
 	default:
-		return bigAmount(int64(w.r.U64()%1000000000000) + 1)
+		return c05BigAmount(int64(w.r.U64()%1000000000000) + 1)
 	}
 }
 
 // funding: one stored transaction with nOut outputs of the given asset
-func (w *gWorld) funding(asset crypto.Hash, nOut int) {
+func (w *c05GWorld) funding(asset crypto.Hash, nOut int) {
 	tx := common.NewTransactionV5(asset)
 	tx.AddInput(w.randHash(), uint(w.r.Intn(3)))
 	var owners [][]*common.Address
@@ -158,7 +158,7 @@ func (w *gWorld) funding(asset crypto.Hash, nOut int) {
 	}
 }
 
-func (w *gWorld) takeScriptUtxo(asset crypto.Hash) *gUtxo {
+func (w *c05GWorld) takeScriptUtxo(asset crypto.Hash) *c05GUtxo {
 	for i, g := range w.utxos {
 		if g.u.Asset == asset && g.u.Type == common.OutputTypeScript && !g.u.LockHash.HasValue() && len(g.owners) > 0 && g.u.Script[2] > 0 {
 			w.utxos = append(w.utxos[:i], w.utxos[i+1:]...)
@@ -168,12 +168,12 @@ func (w *gWorld) takeScriptUtxo(asset crypto.Hash) *gUtxo {
 	return nil
 }
 
-func (w *gWorld) nodeLine(n *common.Node) {
+func (w *c05GWorld) nodeLine(n *common.Node) {
 	w.lines = append(w.lines, fmt.Sprintf("node %s %s %s %s %s %s", Hex(n.Signer.PublicSpendKey[:]), Hex(n.Signer.PublicViewKey[:]),
 		Hex(n.Payee.PublicSpendKey[:]), Hex(n.Payee.PublicViewKey[:]), Hex([]byte(n.State)), Hex(n.Transaction[:])))
 }
 
-func genesisAddr(a *common.Address) common.Address {
+func c05GenesisAddr(a *common.Address) common.Address {
 	b := *a
 	b.PrivateViewKey = b.PublicSpendKey.DeterministicHashDerive()
 	b.PublicViewKey = b.PrivateViewKey.Public()
@@ -181,7 +181,7 @@ func genesisAddr(a *common.Address) common.Address {
 }
 
 // a pledge transaction spending a XIN script utxo; stored when `store`
-func (w *gWorld) buildPledge(src *gUtxo, signer, payee *common.Address) *common.Transaction {
+func (w *c05GWorld) buildPledge(src *c05GUtxo, signer, payee *common.Address) *common.Transaction {
 	tx := common.NewTransactionV5(common.XINAssetId)
 	tx.AddInput(src.u.Hash, src.u.Index)
 	tx.AddOutputWithType(common.OutputTypeNodePledge, nil, common.Script{}, src.u.Amount, w.seed())
@@ -189,8 +189,8 @@ func (w *gWorld) buildPledge(src *gUtxo, signer, payee *common.Address) *common.
 	return tx
 }
 
-func (w *gWorld) addNodes() {
-	accts := vAccounts()
+func (w *c05GWorld) addNodes() {
+	accts := c05VAccounts()
 	// accepted nodes: pledge (stored) -> accept (stored), utxo of type accept
 	na := w.r.Range(0, 2)
 	for i := 0; i < na; i++ {
@@ -211,9 +211,9 @@ func (w *gWorld) addNodes() {
 		if w.r.Chance(1, 5) {
 			state = Pick(w.r, []string{common.NodeStateRemoved, common.NodeStateCancelled})
 		}
-		n := &common.Node{Signer: genesisAddr(signer), Payee: *payee, State: state, Transaction: av.PayloadHash()}
+		n := &common.Node{Signer: c05GenesisAddr(signer), Payee: *payee, State: state, Transaction: av.PayloadHash()}
 		w.nodeLine(n)
-		w.accepted = append(w.accepted, &gNode{signer: signer, payee: payee, tx: av, utxo: aus[0]})
+		w.accepted = append(w.accepted, &c05GNode{signer: signer, payee: payee, tx: av, utxo: aus[0]})
 	}
 	if w.r.Chance(1, 2) {
 		src := w.takeScriptUtxo(common.XINAssetId)
@@ -225,15 +225,15 @@ func (w *gWorld) addNodes() {
 		// the pledge's own input must stay readable for validateNodeCancel: its creating tx is stored
 		pv, pus := w.storeTx(pledge, nil, true)
 		w.addUtxo(pus[0])
-		n := &common.Node{Signer: genesisAddr(signer), Payee: *payee, State: common.NodeStatePledging, Transaction: pv.PayloadHash()}
+		n := &common.Node{Signer: c05GenesisAddr(signer), Payee: *payee, State: common.NodeStatePledging, Transaction: pv.PayloadHash()}
 		w.nodeLine(n)
-		w.pledging = &gNode{signer: signer, payee: payee, tx: pv, utxo: pus[0]}
+		w.pledging = &c05GNode{signer: signer, payee: payee, tx: pv, utxo: pus[0]}
 		w.pledging.utxo.owners = src.owners // the owners of the pledged output (for cancel)
 	}
 }
 
-func (w *gWorld) addCustodian() {
-	accts := vAccounts()
+func (w *c05GWorld) addCustodian() {
+	accts := c05VAccounts()
 	w.custodian = accts[12]
 	n := w.r.Range(0, 3)
 	if w.r.Chance(1, 6) {
@@ -249,8 +249,8 @@ func (w *gWorld) addCustodian() {
 	w.lines = append(w.lines, sb.String())
 }
 
-func newWorld(r *Rand) *gWorld {
-	w := &gWorld{r: r, txs: map[crypto.Hash]*common.VersionedTransaction{}, consistent: true}
+func c05NewWorld(r *Rand) *c05GWorld {
+	w := &c05GWorld{r: r, txs: map[crypto.Hash]*common.VersionedTransaction{}, consistent: true}
 	w.lines = []string{"reset"}
 	w.otherAsset = crypto.Sha256Hash(r.Bytes(8))
 	w.assets = []crypto.Hash{common.XINAssetId, common.XINAssetId, common.BitcoinAssetId, common.EthereumAssetId, w.otherAsset}
@@ -287,7 +287,7 @@ func newWorld(r *Rand) *gWorld {
 	return w
 }
 
-func (w *gWorld) ReadUTXOKeys(h crypto.Hash, i uint) (*common.UTXOKeys, error) {
+func (w *c05GWorld) ReadUTXOKeys(h crypto.Hash, i uint) (*common.UTXOKeys, error) {
 	for _, g := range w.utxos {
 		if g.u.Hash == h && g.u.Index == i {
 			return &common.UTXOKeys{Mask: g.u.Mask, Keys: g.u.Keys}, nil
@@ -296,15 +296,15 @@ func (w *gWorld) ReadUTXOKeys(h crypto.Hash, i uint) (*common.UTXOKeys, error) {
 	return nil, nil
 }
 
-func spendable(g *gUtxo) bool {
+func c05Spendable(g *c05GUtxo) bool {
 	return (g.u.Type == common.OutputTypeScript || g.u.Type == common.OutputTypeNodeRemove) && len(g.owners) > 0
 }
 
-// 1..k spendable utxos of one asset
-func (w *gWorld) pickInputs(asset *crypto.Hash, max int) []*gUtxo {
-	var cands []*gUtxo
+// 1..k c05Spendable utxos of one asset
+func (w *c05GWorld) pickInputs(asset *crypto.Hash, max int) []*c05GUtxo {
+	var cands []*c05GUtxo
 	for _, g := range w.utxos {
-		if spendable(g) && (asset == nil || g.u.Asset == *asset) {
+		if c05Spendable(g) && (asset == nil || g.u.Asset == *asset) {
 			cands = append(cands, g)
 		}
 	}
@@ -312,7 +312,7 @@ func (w *gWorld) pickInputs(asset *crypto.Hash, max int) []*gUtxo {
 		return nil
 	}
 	first := Pick(w.r, cands)
-	res := []*gUtxo{first}
+	res := []*c05GUtxo{first}
 	for _, g := range cands {
 		if g != first && g.u.Asset == first.u.Asset && len(res) < max && w.r.Chance(2, 3) {
 			res = append(res, g)
@@ -322,7 +322,7 @@ func (w *gWorld) pickInputs(asset *crypto.Hash, max int) []*gUtxo {
 	return res
 }
 
-func sumUtxos(ins []*gUtxo) *big.Int {
+func c05SumUtxos(ins []*c05GUtxo) *big.Int {
 	t := new(big.Int)
 	for _, g := range ins {
 		t.Add(t, integerToBig(g.u.Amount))
@@ -331,7 +331,7 @@ func sumUtxos(ins []*gUtxo) *big.Int {
 }
 
 // split total into at most m positive parts
-func (w *gWorld) split(total *big.Int, m int) []*big.Int {
+func (w *c05GWorld) split(total *big.Int, m int) []*big.Int {
 	var parts []*big.Int
 	rest := new(big.Int).Set(total)
 	for i := 0; i < m-1; i++ {
@@ -347,7 +347,7 @@ func (w *gWorld) split(total *big.Int, m int) []*big.Int {
 	return append(parts, rest)
 }
 
-func (w *gWorld) addChange(tx *common.Transaction, total *big.Int, m int) {
+func (w *c05GWorld) addChange(tx *common.Transaction, total *big.Int, m int) {
 	if total.Sign() <= 0 {
 		return
 	}
@@ -361,18 +361,18 @@ func (w *gWorld) addChange(tx *common.Transaction, total *big.Int, m int) {
 	}
 }
 
-type sigMode int
+type c05SigMode int
 
 const (
-	sigMaps sigMode = iota
-	sigAggregate
-	sigNone
+	c05SigMaps c05SigMode = iota
+	c05SigAggregate
+	c05SigNone
 )
 
 // sign every ordinary input with enough of its owners (key order preserved)
-func (w *gWorld) sign(tx *common.Transaction, ins []*gUtxo, mode sigMode) *common.SignedTransaction {
+func (w *c05GWorld) sign(tx *common.Transaction, ins []*c05GUtxo, mode c05SigMode) *common.SignedTransaction {
 	signed := &common.SignedTransaction{Transaction: *tx}
-	choose := func(g *gUtxo) []*common.Address {
+	choose := func(g *c05GUtxo) []*common.Address {
 		th := 0
 		if len(g.u.Script) == 3 {
 			th = int(g.u.Script[2])
@@ -402,7 +402,7 @@ func (w *gWorld) sign(tx *common.Transaction, ins []*gUtxo, mode sigMode) *commo
 		return res
 	}
 	switch mode {
-	case sigMaps:
+	case c05SigMaps:
 		for i, g := range ins {
 			if g == nil {
 				continue
@@ -416,7 +416,7 @@ func (w *gWorld) sign(tx *common.Transaction, ins []*gUtxo, mode sigMode) *commo
 				signed.SignaturesMap = append(signed.SignaturesMap, map[uint16]*crypto.Signature{})
 			}
 		}
-	case sigAggregate:
+	case c05SigAggregate:
 		var accs [][]*common.Address
 		for _, g := range ins {
 			if g == nil {
@@ -429,16 +429,16 @@ func (w *gWorld) sign(tx *common.Transaction, ins []*gUtxo, mode sigMode) *commo
 	return signed
 }
 
-type builder func(w *gWorld, mut func(*common.Transaction)) (*common.SignedTransaction, string)
+type c05Builder func(w *c05GWorld, mut func(*common.Transaction)) (*common.SignedTransaction, string)
 
-func (w *gWorld) sigModeFor(ins []*gUtxo) sigMode {
+func (w *c05GWorld) sigModeFor(ins []*c05GUtxo) c05SigMode {
 	if w.r.Chance(1, 3) {
-		return sigAggregate
+		return c05SigAggregate
 	}
-	return sigMaps
+	return c05SigMaps
 }
 
-func buildTransfer(w *gWorld, mut func(*common.Transaction)) (*common.SignedTransaction, string) {
+func c05BuildTransfer(w *c05GWorld, mut func(*common.Transaction)) (*common.SignedTransaction, string) {
 	max := 4
 	if w.r.Chance(1, 40) {
 		max = 256
@@ -454,7 +454,7 @@ func buildTransfer(w *gWorld, mut func(*common.Transaction)) (*common.SignedTran
 	for _, g := range ins {
 		tx.AddInput(g.u.Hash, g.u.Index)
 	}
-	w.addChange(tx, sumUtxos(ins), w.r.Range(1, 4))
+	w.addChange(tx, c05SumUtxos(ins), w.r.Range(1, 4))
 	if w.r.Chance(1, 4) {
 		tx.Extra = w.r.Bytes(w.r.Range(1, 256))
 	}
@@ -462,12 +462,12 @@ func buildTransfer(w *gWorld, mut func(*common.Transaction)) (*common.SignedTran
 		tx.References = append(tx.References, w.submits[0])
 	}
 	mut(tx)
-	return w.sign(tx, insFor(w, tx, ins), w.sigModeFor(ins)), "transfer"
+	return w.sign(tx, c05InsFor(w, tx, ins), w.sigModeFor(ins)), "transfer"
 }
 
 // the utxo behind each input after a mutation may have changed the input list
-func insFor(w *gWorld, tx *common.Transaction, _ []*gUtxo) []*gUtxo {
-	res := make([]*gUtxo, len(tx.Inputs))
+func c05InsFor(w *c05GWorld, tx *common.Transaction, _ []*c05GUtxo) []*c05GUtxo {
+	res := make([]*c05GUtxo, len(tx.Inputs))
 	for i, in := range tx.Inputs {
 		if in.Mint != nil || in.Deposit != nil || len(in.Genesis) > 0 {
 			continue
@@ -481,7 +481,7 @@ func insFor(w *gWorld, tx *common.Transaction, _ []*gUtxo) []*gUtxo {
 	return res
 }
 
-func buildMint(w *gWorld, mut func(*common.Transaction)) (*common.SignedTransaction, string) {
+func c05BuildMint(w *c05GWorld, mut func(*common.Transaction)) (*common.SignedTransaction, string) {
 	tx := common.NewTransactionV5(common.XINAssetId)
 	amt := big.NewInt(50000000 + int64(w.r.Intn(2)))
 	tx.AddUniversalMintInput(uint64(99+w.r.Intn(5)), integerFromBig(amt))
@@ -498,7 +498,7 @@ func buildMint(w *gWorld, mut func(*common.Transaction)) (*common.SignedTransact
 // a mint / deposit transaction with one more, ordinary, input before or after the special one and
 // one (unverified) signature map per input: the early return of validateInputs skips the batch
 // verification, only the one-input rule of the type validator rejects it
-func (w *gWorld) mixOrdinaryInput(signed *common.SignedTransaction) {
+func (w *c05GWorld) mixOrdinaryInput(signed *common.SignedTransaction) {
 	ins := w.pickInputs(&signed.Asset, 1)
 	if ins == nil || len(signed.Inputs) != 1 || len(signed.SignaturesMap) != 1 {
 		return
@@ -520,7 +520,7 @@ func (w *gWorld) mixOrdinaryInput(signed *common.SignedTransaction) {
 	}
 }
 
-func buildDeposit(w *gWorld, mut func(*common.Transaction)) (*common.SignedTransaction, string) {
+func c05BuildDeposit(w *c05GWorld, mut func(*common.Transaction)) (*common.SignedTransaction, string) {
 	tx := common.NewTransactionV5(common.BitcoinAssetId)
 	amt := big.NewInt(int64(w.r.Range(1, 1000)) * 100000000)
 	if w.r.Chance(1, 8) {
@@ -560,7 +560,7 @@ func buildDeposit(w *gWorld, mut func(*common.Transaction)) (*common.SignedTrans
 	return signed, "deposit"
 }
 
-func buildWithdrawalSubmit(w *gWorld, mut func(*common.Transaction)) (*common.SignedTransaction, string) {
+func c05BuildWithdrawalSubmit(w *c05GWorld, mut func(*common.Transaction)) (*common.SignedTransaction, string) {
 	ins := w.pickInputs(nil, 3)
 	if ins == nil {
 		return nil, ""
@@ -569,17 +569,17 @@ func buildWithdrawalSubmit(w *gWorld, mut func(*common.Transaction)) (*common.Si
 	for _, g := range ins {
 		tx.AddInput(g.u.Hash, g.u.Index)
 	}
-	parts := w.split(sumUtxos(ins), w.r.Range(1, 3))
+	parts := w.split(c05SumUtxos(ins), w.r.Range(1, 3))
 	tx.Outputs = append(tx.Outputs, &common.Output{Type: common.OutputTypeWithdrawalSubmit, Amount: integerFromBig(parts[0]),
 		Withdrawal: &common.WithdrawalData{Address: "bc1destination", Tag: ""}})
 	for _, p := range parts[1:] {
 		tx.AddScriptOutput([]*common.Address{w.acct()}, common.NewThresholdScript(1), integerFromBig(p), w.seed())
 	}
 	mut(tx)
-	return w.sign(tx, insFor(w, tx, ins), w.sigModeFor(ins)), "withdrawal-submit"
+	return w.sign(tx, c05InsFor(w, tx, ins), w.sigModeFor(ins)), "withdrawal-submit"
 }
 
-func buildWithdrawalClaim(w *gWorld, mut func(*common.Transaction)) (*common.SignedTransaction, string) {
+func c05BuildWithdrawalClaim(w *c05GWorld, mut func(*common.Transaction)) (*common.SignedTransaction, string) {
 	asset := common.XINAssetId
 	ins := w.pickInputs(&asset, 2)
 	if ins == nil || len(w.submits) == 0 {
@@ -589,7 +589,7 @@ func buildWithdrawalClaim(w *gWorld, mut func(*common.Transaction)) (*common.Sig
 	for _, g := range ins {
 		tx.AddInput(g.u.Hash, g.u.Index)
 	}
-	parts := w.split(sumUtxos(ins), 2)
+	parts := w.split(c05SumUtxos(ins), 2)
 	tx.Outputs = append(tx.Outputs, &common.Output{Type: common.OutputTypeWithdrawalClaim, Amount: integerFromBig(parts[0])})
 	for _, p := range parts[1:] {
 		tx.AddScriptOutput([]*common.Address{w.acct()}, common.NewThresholdScript(1), integerFromBig(p), w.seed())
@@ -615,16 +615,16 @@ func buildWithdrawalClaim(w *gWorld, mut func(*common.Transaction)) (*common.Sig
 		}
 	}
 	mut(tx)
-	return w.sign(tx, insFor(w, tx, ins), w.sigModeFor(ins)), "withdrawal-claim"
+	return w.sign(tx, c05InsFor(w, tx, ins), w.sigModeFor(ins)), "withdrawal-claim"
 }
 
-func buildNodePledge(w *gWorld, mut func(*common.Transaction)) (*common.SignedTransaction, string) {
+func c05BuildNodePledge(w *c05GWorld, mut func(*common.Transaction)) (*common.SignedTransaction, string) {
 	asset := common.XINAssetId
 	ins := w.pickInputs(&asset, 1)
 	if ins == nil {
 		return nil, ""
 	}
-	accts := vAccounts()
+	accts := c05VAccounts()
 	signer, payee := accts[20], accts[21]
 	if w.r.Chance(1, 8) && len(w.accepted) > 0 {
 		signer = w.accepted[0].signer
@@ -639,10 +639,10 @@ func buildNodePledge(w *gWorld, mut func(*common.Transaction)) (*common.SignedTr
 		copy(tx.Extra, w.r.Bytes(32))
 	}
 	mut(tx)
-	return w.sign(tx, insFor(w, tx, ins), w.sigModeFor(ins)), "node-pledge"
+	return w.sign(tx, c05InsFor(w, tx, ins), w.sigModeFor(ins)), "node-pledge"
 }
 
-func buildNodeAccept(w *gWorld, mut func(*common.Transaction)) (*common.SignedTransaction, string) {
+func c05BuildNodeAccept(w *c05GWorld, mut func(*common.Transaction)) (*common.SignedTransaction, string) {
 	if w.pledging == nil {
 		return nil, ""
 	}
@@ -665,7 +665,7 @@ func buildNodeAccept(w *gWorld, mut func(*common.Transaction)) (*common.SignedTr
 	return signed, "node-accept"
 }
 
-func buildNodeCancel(w *gWorld, mut func(*common.Transaction)) (*common.SignedTransaction, string) {
+func c05BuildNodeCancel(w *c05GWorld, mut func(*common.Transaction)) (*common.SignedTransaction, string) {
 	if w.pledging == nil || len(w.pledging.utxo.owners) == 0 {
 		return nil, ""
 	}
@@ -686,7 +686,7 @@ func buildNodeCancel(w *gWorld, mut func(*common.Transaction)) (*common.SignedTr
 	tx.AddScriptOutput([]*common.Address{owner}, common.NewThresholdScript(1), integerFromBig(rest), w.seed())
 	view := owner.PrivateViewKey
 	if w.r.Chance(1, 3) { // non-canonical scalar
-		view = keyOf(bytes.Repeat([]byte{0xff}, 32))
+		view = c05KeyOf(bytes.Repeat([]byte{0xff}, 32))
 	}
 	tx.Extra = append(append([]byte{}, p.tx.Extra...), view[:]...)
 	mut(tx)
@@ -696,7 +696,7 @@ func buildNodeCancel(w *gWorld, mut func(*common.Transaction)) (*common.SignedTr
 	return signed, "node-cancel"
 }
 
-func buildNodeRemove(w *gWorld, mut func(*common.Transaction)) (*common.SignedTransaction, string) {
+func c05BuildNodeRemove(w *c05GWorld, mut func(*common.Transaction)) (*common.SignedTransaction, string) {
 	if len(w.accepted) == 0 {
 		return nil, ""
 	}
@@ -716,13 +716,13 @@ func buildNodeRemove(w *gWorld, mut func(*common.Transaction)) (*common.SignedTr
 	return signed, "node-remove"
 }
 
-func buildCustodianUpdate(w *gWorld, mut func(*common.Transaction)) (*common.SignedTransaction, string) {
+func c05BuildCustodianUpdate(w *c05GWorld, mut func(*common.Transaction)) (*common.SignedTransaction, string) {
 	asset := common.XINAssetId
 	ins := w.pickInputs(&asset, 3)
 	if ins == nil || w.custodian == nil {
 		return nil, ""
 	}
-	accts := vAccounts()
+	accts := c05VAccounts()
 	next := accts[12]
 	if w.r.Chance(1, 2) {
 		next = accts[22]
@@ -761,13 +761,13 @@ func buildCustodianUpdate(w *gWorld, mut func(*common.Transaction)) (*common.Sig
 	for _, g := range ins {
 		tx.AddInput(g.u.Hash, g.u.Index)
 	}
-	tx.AddOutputWithType(common.OutputTypeCustodianUpdateNodes, []*common.Address{w.acct()}, common.NewThresholdScript(64), integerFromBig(sumUtxos(ins)), w.seed())
+	tx.AddOutputWithType(common.OutputTypeCustodianUpdateNodes, []*common.Address{w.acct()}, common.NewThresholdScript(64), integerFromBig(c05SumUtxos(ins)), w.seed())
 	tx.Extra = extra
 	mut(tx)
-	return w.sign(tx, insFor(w, tx, ins), w.sigModeFor(ins)), "custodian-update"
+	return w.sign(tx, c05InsFor(w, tx, ins), w.sigModeFor(ins)), "custodian-update"
 }
 
-func hugeAmount(r *Rand) common.Integer {
+func c05HugeAmount(r *Rand) common.Integer {
 	k := uint(Pick(r, []int{53, 63, 64, 65, 77, 78, 128, 256, 512, 520}))
 	n := new(big.Int).Lsh(big.NewInt(1), k)
 	n.Add(n, big.NewInt(int64(r.Range(-1, 1))))
@@ -775,7 +775,7 @@ func hugeAmount(r *Rand) common.Integer {
 }
 
 // pre-signature mutations (signatures stay valid over the mutated payload)
-func (w *gWorld) preMutation() (func(*common.Transaction), string) {
+func (w *c05GWorld) preMutation() (func(*common.Transaction), string) {
 	r := w.r
 	muts := []struct {
 		name string
@@ -789,12 +789,12 @@ func (w *gWorld) preMutation() (func(*common.Transaction), string) {
 			o := Pick(r, tx.Outputs)
 			o.Amount = integerFromBig(new(big.Int).Sub(integerToBig(o.Amount), big.NewInt(1)))
 		}},
-		{"amount-huge", func(tx *common.Transaction) { Pick(r, tx.Outputs).Amount = hugeAmount(r) }},
+		{"amount-huge", func(tx *common.Transaction) { Pick(r, tx.Outputs).Amount = c05HugeAmount(r) }},
 		{"amount-zero", func(tx *common.Transaction) { Pick(r, tx.Outputs).Amount = common.Zero }},
 		{"storage-output", func(tx *common.Transaction) {
-			amt := bigAmount(int64(Pick(r, []int{9999, 10000, 10001, 40950000, 40960000, 40970000, 100000000})))
+			amt := c05BigAmount(int64(Pick(r, []int{9999, 10000, 10001, 40950000, 40960000, 40970000, 100000000})))
 			if r.Chance(1, 2) {
-				amt = hugeAmount(r)
+				amt = c05HugeAmount(r)
 			}
 			tx.AddScriptOutput([]*common.Address{w.acct()}, common.NewThresholdScript(64), amt, w.seed())
 			if r.Bool() {
@@ -813,7 +813,7 @@ func (w *gWorld) preMutation() (func(*common.Transaction), string) {
 			for _, g := range ins {
 				tx.AddInput(g.u.Hash, g.u.Index)
 			}
-			tx.AddScriptOutput([]*common.Address{w.acct()}, common.NewThresholdScript(64), hugeAmount(r), w.seed())
+			tx.AddScriptOutput([]*common.Address{w.acct()}, common.NewThresholdScript(64), c05HugeAmount(r), w.seed())
 		}},
 		{"output-type", func(tx *common.Transaction) {
 			Pick(r, tx.Outputs).Type = Pick(r, []uint8{0x00, 0xa1, 0xa3, 0xa4, 0xa5, 0xa6, 0xa9, 0xaa, 0xb1, 0xb2, 0x01, 0x7f, 0xff})
@@ -836,7 +836,7 @@ func (w *gWorld) preMutation() (func(*common.Transaction), string) {
 			n := Pick(r, []int{8, 64, 255, 256}) - len(tx.Outputs)
 			a := w.acct()
 			for i := 0; i < n; i++ {
-				tx.AddScriptOutput([]*common.Address{a}, common.NewThresholdScript(1), bigAmount(1), w.seed())
+				tx.AddScriptOutput([]*common.Address{a}, common.NewThresholdScript(1), c05BigAmount(1), w.seed())
 			}
 		}},
 		{"many-inputs", func(tx *common.Transaction) {
@@ -858,7 +858,7 @@ func (w *gWorld) preMutation() (func(*common.Transaction), string) {
 		{"missing-input", func(tx *common.Transaction) { tx.AddInput(w.randHash(), uint(r.Intn(3))) }},
 		{"other-typed-input", func(tx *common.Transaction) {
 			for _, g := range w.utxos {
-				if !spendable(g) && r.Chance(1, 2) {
+				if !c05Spendable(g) && r.Chance(1, 2) {
 					tx.AddInput(g.u.Hash, g.u.Index)
 					return
 				}
@@ -902,12 +902,12 @@ func (w *gWorld) preMutation() (func(*common.Transaction), string) {
 			if r.Bool() {
 				o.Mask = crypto.Key{}
 			} else {
-				o.Mask = keyOf(r.Bytes(32))
+				o.Mask = c05KeyOf(r.Bytes(32))
 			}
 		}},
 		{"bad-key", func(tx *common.Transaction) {
 			o := Pick(r, tx.Outputs)
-			k := keyOf(r.Bytes(32))
+			k := c05KeyOf(r.Bytes(32))
 			if len(o.Keys) > 0 && r.Bool() {
 				o.Keys[r.Intn(len(o.Keys))] = &k
 			} else {
@@ -940,7 +940,7 @@ func (w *gWorld) preMutation() (func(*common.Transaction), string) {
 			Pick(r, tx.Outputs).Keys = []*crypto.Key{&k}
 		}},
 		{"extra-output-node", func(tx *common.Transaction) {
-			tx.Outputs = append(tx.Outputs, &common.Output{Type: Pick(r, []uint8{0xa1, 0xa3, 0xa4, 0xa6, 0xa9, 0xaa, 0xb1}), Amount: bigAmount(1)})
+			tx.Outputs = append(tx.Outputs, &common.Output{Type: Pick(r, []uint8{0xa1, 0xa3, 0xa4, 0xa6, 0xa9, 0xaa, 0xb1}), Amount: c05BigAmount(1)})
 		}},
 		{"locked-input", func(tx *common.Transaction) {
 			for _, in := range tx.Inputs {
@@ -963,7 +963,7 @@ func (w *gWorld) preMutation() (func(*common.Transaction), string) {
 }
 
 // map indexes in increasing order (Go map iteration order is random; every choice derives from r)
-func sortedIdx(m map[uint16]*crypto.Signature) []uint16 {
+func c05SortedIdx(m map[uint16]*crypto.Signature) []uint16 {
 	var l []uint16
 	for i := range m {
 		l = append(l, i)
@@ -973,7 +973,7 @@ func sortedIdx(m map[uint16]*crypto.Signature) []uint16 {
 }
 
 // post-signature mutations of the signature section
-func (w *gWorld) postMutation(s *common.SignedTransaction) string {
+func (w *c05GWorld) postMutation(s *common.SignedTransaction) string {
 	r := w.r
 	if as := s.AggregatedSignature; as != nil {
 		switch r.Intn(6) {
@@ -1024,7 +1024,7 @@ func (w *gWorld) postMutation(s *common.SignedTransaction) string {
 		return "sigs-empty-map"
 	case 4:
 		for _, m := range s.SignaturesMap {
-			for _, i := range sortedIdx(m) {
+			for _, i := range c05SortedIdx(m) {
 				delete(m, i)
 				return "sigs-one-removed"
 			}
@@ -1032,7 +1032,7 @@ func (w *gWorld) postMutation(s *common.SignedTransaction) string {
 		return "sigs-one-removed"
 	case 5:
 		for _, m := range s.SignaturesMap {
-			for _, i := range sortedIdx(m) {
+			for _, i := range c05SortedIdx(m) {
 				sg := m[i]
 				delete(m, i)
 				m[uint16(Pick(r, []int{1, 2, 3, 8, 255, 65535}))] = sg
@@ -1047,7 +1047,7 @@ func (w *gWorld) postMutation(s *common.SignedTransaction) string {
 		return "sigs-swapped"
 	case 7:
 		for _, m := range s.SignaturesMap {
-			for _, i := range sortedIdx(m) {
+			for _, i := range c05SortedIdx(m) {
 				sg := m[i]
 				sg[r.Intn(64)] ^= 1 << r.Intn(8)
 				return "sig-flip"
@@ -1057,7 +1057,7 @@ func (w *gWorld) postMutation(s *common.SignedTransaction) string {
 	default:
 		// a signature of a different key under a valid index
 		for _, m := range s.SignaturesMap {
-			for _, i := range sortedIdx(m) {
+			for _, i := range c05SortedIdx(m) {
 				sg := w.acct().PrivateSpendKey.Sign(s.AsVersioned().PayloadHash())
 				m[i] = &sg
 				return "sig-foreign"
@@ -1068,7 +1068,7 @@ func (w *gWorld) postMutation(s *common.SignedTransaction) string {
 }
 
 // ledger corruptions: the ledger no longer satisfies the invariants of reachable states
-func (w *gWorld) corrupt() string {
+func (w *c05GWorld) corrupt() string {
 	r := w.r
 	w.consistent = false
 	switch r.Intn(7) {
@@ -1088,15 +1088,15 @@ func (w *gWorld) corrupt() string {
 			tx.AddOutputWithType(ot, nil, common.Script{}, w.genAmount(), w.seed())
 		}
 		for _, u := range tx.AsVersioned().UnspentOutputs() {
-			w.utxos = append([]*gUtxo{{u: u, owners: []*common.Address{a}}}, w.utxos...)
+			w.utxos = append([]*c05GUtxo{{u: u, owners: []*common.Address{a}}}, w.utxos...)
 			if ot != common.OutputTypeScript {
-				w.accepted = append(w.accepted, &gNode{signer: a, payee: a, tx: tx.AsVersioned(), utxo: w.utxos[0]})
+				w.accepted = append(w.accepted, &c05GNode{signer: a, payee: a, tx: tx.AsVersioned(), utxo: w.utxos[0]})
 			}
 		}
 		return "utxo-without-tx"
 	case 2:
 		a := w.acct()
-		n := &common.Node{Signer: genesisAddr(a), Payee: *a, State: Pick(r, []string{"RESIGNING", ""}), Transaction: w.randHash()}
+		n := &common.Node{Signer: c05GenesisAddr(a), Payee: *a, State: Pick(r, []string{"RESIGNING", ""}), Transaction: w.randHash()}
 		w.nodeLine(n)
 		return "node-unknown-state"
 	case 3: // a pledging node whose transaction is missing
@@ -1105,11 +1105,11 @@ func (w *gWorld) corrupt() string {
 		if w.pledging != nil {
 			return "none"
 		}
-		n := &common.Node{Signer: genesisAddr(a), Payee: *a, State: common.NodeStatePledging, Transaction: h}
+		n := &common.Node{Signer: c05GenesisAddr(a), Payee: *a, State: common.NodeStatePledging, Transaction: h}
 		w.nodeLine(n)
 		u := &common.UTXOWithLock{UTXO: common.UTXO{Input: common.Input{Hash: h}, Output: common.Output{Type: common.OutputTypeNodePledge, Amount: w.genAmount()}, Asset: common.XINAssetId}}
-		w.utxos = append(w.utxos, &gUtxo{u: u})
-		w.pledging = &gNode{signer: a, payee: a, tx: common.NewTransactionV5(common.XINAssetId).AsVersioned(), utxo: w.utxos[len(w.utxos)-1]}
+		w.utxos = append(w.utxos, &c05GUtxo{u: u})
+		w.pledging = &c05GNode{signer: a, payee: a, tx: common.NewTransactionV5(common.XINAssetId).AsVersioned(), utxo: w.utxos[len(w.utxos)-1]}
 		w.pledging.tx.Extra = append(append([]byte{}, a.PublicSpendKey[:]...), a.PublicSpendKey[:]...)
 		return "pledging-node-without-tx"
 	case 4: // no custodian at the snapshot time
@@ -1128,7 +1128,7 @@ func (w *gWorld) corrupt() string {
 		if w.custodian == nil {
 			return "none"
 		}
-		accts := vAccounts()
+		accts := c05VAccounts()
 		var sb bytes.Buffer
 		fmt.Fprintf(&sb, "cust %s %s 2", Hex(w.custodian.PublicSpendKey[:]), Hex(w.custodian.PublicViewKey[:]))
 		for i := 0; i < 2; i++ {
@@ -1146,28 +1146,28 @@ func (w *gWorld) corrupt() string {
 	}
 }
 
-var vBuilders = []struct {
-	b      builder
+var c05VBuilders = []struct {
+	b      c05Builder
 	weight int
 }{
-	{buildTransfer, 30}, {buildMint, 5}, {buildDeposit, 8}, {buildWithdrawalSubmit, 6}, {buildWithdrawalClaim, 7},
-	{buildNodePledge, 6}, {buildNodeAccept, 6}, {buildNodeCancel, 4}, {buildNodeRemove, 6}, {buildCustodianUpdate, 2},
+	{c05BuildTransfer, 30}, {c05BuildMint, 5}, {c05BuildDeposit, 8}, {c05BuildWithdrawalSubmit, 6}, {c05BuildWithdrawalClaim, 7},
+	{c05BuildNodePledge, 6}, {c05BuildNodeAccept, 6}, {c05BuildNodeCancel, 4}, {c05BuildNodeRemove, 6}, {c05BuildCustodianUpdate, 2},
 }
 
-func genValidateCase(r *Rand, forceMut string, forceBuilder builder) []string {
+func c05GenValidateCase(r *Rand, forceMut string, forceBuilder c05Builder) []string {
 	for attempt := 0; ; attempt++ {
-		w := newWorld(r.Fork())
+		w := c05NewWorld(r.Fork())
 		if forceMut == "" && w.r.Chance(1, 8) {
 			w.corrupt()
 		}
 		b := forceBuilder
 		if b == nil {
 			tot := 0
-			for _, x := range vBuilders {
+			for _, x := range c05VBuilders {
 				tot += x.weight
 			}
 			k := w.r.Intn(tot)
-			for _, x := range vBuilders {
+			for _, x := range c05VBuilders {
 				if k < x.weight {
 					b = x.b
 					break
@@ -1232,13 +1232,13 @@ func genValidateCase(r *Rand, forceMut string, forceBuilder builder) []string {
 		if w.r.Chance(1, 10) {
 			fork = 1
 		}
-		w.lines = append(w.lines, fmt.Sprintf("validate %d %d %s", fork, b2i(w.consistent), Hex(raw)))
+		w.lines = append(w.lines, fmt.Sprintf("validate %d %d %s", fork, c05B2i(w.consistent), Hex(raw)))
 		return w.lines
 	}
 }
 
-func genBatchCase(r *Rand) []string {
-	accts := vAccounts()
+func c05GenBatchCase(r *Rand) []string {
+	accts := c05VAccounts()
 	msg := crypto.Blake3Hash(r.Bytes(8))
 	n := Pick(r, []int{1, 2, 3, 5, 16, 64, 128})
 	if r.Chance(1, 20) {
@@ -1257,12 +1257,12 @@ func genBatchCase(r *Rand) []string {
 			case 1:
 				k = accts[(r.Intn(len(accts)-1)+1+i)%len(accts)].PublicSpendKey
 				if k == a.PublicSpendKey {
-					k = keyOf(r.Bytes(32))
+					k = c05KeyOf(r.Bytes(32))
 				}
 			case 2:
 				sig = a.PrivateSpendKey.Sign(crypto.Blake3Hash(r.Bytes(8)))
 			default:
-				k = keyOf(r.Bytes(32))
+				k = c05KeyOf(r.Bytes(32))
 			}
 		}
 		line += " " + Hex(k[:]) + " " + Hex(sig[:])
@@ -1279,17 +1279,17 @@ func init() {
 			"1/8 of ledgers corrupted (consistent=0); every transaction is round-tripped through Marshal/Unmarshal first; 1/12 of cases are BatchVerify batches; " +
 			"non-trivial = accepted transaction or a batch of ≥2 signatures; distinct = distinct abstract line",
 		Corpus: [][]string{
-			genValidateCase(NewRand(1001), "node-remove-typed", buildTransfer),
-			genValidateCase(NewRand(1002), "storage-huge-xin", buildTransfer),
-			genValidateCase(NewRand(1003), "storage-huge-xin", buildTransfer),
-			genValidateCase(NewRand(1004), "storage-output", buildTransfer),
+			c05GenValidateCase(NewRand(1001), "node-remove-typed", c05BuildTransfer),
+			c05GenValidateCase(NewRand(1002), "storage-huge-xin", c05BuildTransfer),
+			c05GenValidateCase(NewRand(1003), "storage-huge-xin", c05BuildTransfer),
+			c05GenValidateCase(NewRand(1004), "storage-output", c05BuildTransfer),
 		},
 		Gen: func(r *Rand, i int, tier string) []string {
 			if r.Chance(1, 12) {
-				return genBatchCase(r)
+				return c05GenBatchCase(r)
 			}
-			return genValidateCase(r, "", nil)
+			return c05GenValidateCase(r, "", nil)
 		},
-		Exec: execValidateSub,
+		Exec: c05ExecValidateSub,
 	})
 }
